@@ -161,6 +161,97 @@ def run_elem(rng):
     return None, rep
 
 
+# ordinary settings (well inside every range) and, per class, the boundary values tried ONE AT A TIME: whatever
+# validate_params accepts must train and predict (the quantifier: "all hyper-parameters accepted by validate_params")
+ORDINARY = {"Fuzzy": {"rho": 0.5, "alpha": 1e-3, "beta": 0.5}, "ART1": {"rho": 0.5, "L": 2.0}, "ART2A": {"rho": 0.5, "alpha": 0.1, "beta": 0.5},
+            "Hyper": {"rho": 0.5, "alpha": 1e-3, "beta": 0.5, "r_hat": 1.0}, "Ellip": {"rho": 0.5, "alpha": 1e-3, "beta": 0.5, "mu": 0.8, "r_hat": 1.0},
+            "Gauss": {"rho": 0.1, "alpha": 1e-3}, "Bayes": {"rho": 0.05}, "Quad": {"rho": 0.3, "s_init": 1.0, "lr_b": 0.5, "lr_w": 0.1, "lr_s": 0.05}}
+BOUNDARY = {"Fuzzy": {"rho": [0.0, 1.0], "alpha": [0.0], "beta": [0.0, 1.0]},
+            "ART1": {"rho": [0.0, 1.0], "L": [1.0, float("inf")]},
+            "ART2A": {"rho": [0.0, 1.0], "alpha": [0.0], "beta": [0.0, 1.0]},
+            "Hyper": {"rho": [0.0, 1.0], "alpha": [0.0], "beta": [0.0, 1.0], "r_hat": [0.0, -1.0]},
+            "Ellip": {"rho": [0.0, 1.0], "alpha": [0.0, 1.0], "beta": [0.0, 1.0], "mu": [1.0, 0.0], "r_hat": [0.0, -1.0]},
+            "Gauss": {"rho": [0.0, 1.0], "alpha": [0.0], "sigma_init": ["zero-entry", "negative-entry"]},
+            "Bayes": {"rho": [0.0], "cov_init": ["zeros", "singular", "negative-definite"]},
+            "Quad": {"rho": [0.0, 1.0], "s_init": [0.0, -1.0], "lr_b": [0.0, 1.0], "lr_w": [0.0, 1.0], "lr_s": [0.0, 1.0]},
+            "Topo": {"tau": [0, 1], "phi": [0, -1], "beta_lower": [-0.5, 0.0]},
+            "DualVig": {"rho_lower_bound": [0.0, -0.1]}}
+# (magnitudes near the binary64 overflow / underflow thresholds are not tried: see the assumptions in the evidence)
+
+
+def accepted_params_oracle(rng):
+    import artlib
+    cls = rng.choice(list(BOUNDARY))
+    pname = rng.choice(sorted(BOUNDARY[cls]))
+    val = rng.choice(BOUNDARY[cls][pname])
+    d = 2
+    rep = {"class": cls, "parameter": pname, "value": repr(val), "others": "ordinary (see harness/c04.py ORDINARY)"}
+
+    def build():
+        if cls in ("Topo", "DualVig"):
+            base = artlib.FuzzyART(0.5, 1e-3, 1.0)
+            with contextlib.redirect_stdout(io.StringIO()):
+                if cls == "Topo":
+                    kw = {"beta_lower": 0.5, "tau": 5, "phi": 2}
+                    kw[pname] = val
+                    if pname == "tau":
+                        kw["phi"] = max(0, min(kw["phi"], val))       # phi <= tau is part of the validation
+                    return artlib.TopoART(base, **kw)
+                return artlib.DualVigilanceART(base, rho_lower_bound=val)
+        p = dict(ORDINARY[cls])
+        if cls == "Gauss":
+            p["sigma_init"] = np.full(d, 0.5)
+        if cls == "Bayes":
+            p["cov_init"] = 0.05 * np.eye(d)
+        if pname == "sigma_init":
+            p[pname] = {"zero-entry": np.array([0.5, 0.0]), "negative-entry": np.array([0.5, -0.5])}[val]
+        elif pname == "cov_init":
+            p[pname] = {"zeros": np.zeros((d, d)), "singular": np.ones((d, d)), "negative-definite": -0.05 * np.eye(d)}[val]
+        else:
+            p[pname] = val
+        # the standing assumptions of the quantifier
+        if cls in ("Fuzzy", "Hyper", "Ellip") and p["rho"] == 0.0 and p["alpha"] == 0.0:
+            return None
+        if cls == "ART1" and p["rho"] == 0.0 and p["L"] == 1.0:
+            return None
+        return K.make(cls, p)
+    try:
+        est = build()
+    except (AssertionError, TypeError, ValueError):
+        return None                  # not accepted by validation
+    if est is None:
+        return None
+    kind = "Fuzzy" if cls in ("Topo", "DualVig") else cls
+    X = K.gen_data(rng, kind, rng.randrange(4, 10), d)
+    rep["X"] = X.tolist()
+    sig = f"{cls}/accepted-{pname}={val!r}"
+    try:
+        with np.errstate(all="ignore"), contextlib.redirect_stdout(io.StringIO()), C.time_limit(5):
+            est.validate_data(X)
+            h = len(X) // 2
+            est.fit(X[:h])
+            est.partial_fit(X[h:])
+            est.predict(X)
+            bad = None
+            for w in est.W:
+                if not np.all(np.isfinite(np.asarray(w, dtype=float))):
+                    bad = "non-finite weight"
+            m = est.base_module if cls in ("Topo", "DualVig") else est
+            for x in X[:4]:
+                for w in list(m.W)[:4]:
+                    T, cache = m.category_choice(x, w, params=m.params)
+                    M, _ = m.match_criterion(x, w, params=m.params, cache=cache)
+                    if not (np.isfinite(T) and np.isfinite(M)):
+                        bad = f"non-finite activation / match value (T={T}, M={M})"
+            if bad:
+                return {"signature": sig + "/nonfinite", "text": f"{cls}({pname}={val!r}) passes validate_params, then: {bad}", "replay": rep}
+    except TimeoutError:
+        return {"signature": sig + "/hangs", "text": f"{cls}({pname}={val!r}) passes validate_params; fit / partial_fit / predict did not return within 5 s", "replay": rep}
+    except Exception as e:
+        return {"signature": sig + "/raises", "text": f"{cls}({pname}={val!r}) passes validate_params, then {type(e).__name__}: {str(e)[:80]}", "replay": rep}
+    return None
+
+
 def run_compound(rng):
     import zoo
     name = rng.choice(zoo.ALL_NAMES + zoo.NESTED_NAMES + ["Fusion", "DualVigilance", "Topo"])
@@ -232,6 +323,14 @@ def main():
         n_empty += 1 if was_empty else 0
         if f:
             fails.append(f)
+    # every hyper-parameter value that validate_params accepts (boundary values, one at a time; own PRNG stream)
+    rng_b = C.make_rng(seed, "C04-boundary")
+    n_bound, seen_b = (300 if tier == "quick" else 1500), set()
+    for _ in range(n_bound):
+        f = accepted_params_oracle(rng_b)
+        if f and f["signature"] not in seen_b:
+            seen_b.add(f["signature"])
+            fails.append(f)
     # defined-ness of kernel outputs vs the model (reuses the direct-call correspondence)
     calls, strs, summ = [], [], []
     tries = 0
@@ -252,7 +351,7 @@ def main():
         "rule": "legal extremes for all eight modules (rho in {0,1}, alpha in {0,1e-10}, beta in {0,1}, tiny r_hat/mu, huge L; quantised grids, duplicated and constant data), "
                 "bare / two partial_fit batches / SimpleARTMAP A-side, all modes; plus compound-estimator histories; non-trivial = distinct configuration+data",
         "traces_validated_against_impl": sum(1 for x in codes if x == 0),
-        "distribution": {"kinds": kinds, "compound": nc, "topoart_histories_ending_with_no_category": n_empty}, "samples": reps[:1]})
+        "distribution": {"kinds": kinds, "compound": nc, "topoart_histories_ending_with_no_category": n_empty, "boundary_hyper_parameter_cases": n_bound}, "samples": reps[:1]})
     v.assumptions = ["overflow / underflow / cancellation-induced sqrt of a tiny negative are binary64 phenomena the exact model cannot exhibit (watched on the implementation only)",
                      "third-party routines (np.linalg, sklearn validation) are exercised, not modelled beyond Mat.v"]
     sys.exit(v.finish())
